@@ -1274,16 +1274,16 @@ SPEC = PropertySpec(
         Subcheck("route.diag", run_diag, strategy=diag_case, quick=640, thorough=30000, min_shard=40),
         Subcheck("route.transpose", run_transpose, strategy=setup, quick=640, thorough=30000, min_shard=40),
         Subcheck("route.lazy_eager", run_lazy_eager, strategy=lazy_case, quick=640, thorough=30000, min_shard=40),
-        Subcheck("index.sampled", run_index, strategy=index_case, quick=8000, thorough=250000, min_shard=200),
+        Subcheck("index.sampled", run_index, strategy=index_case, quick=6400, thorough=250000, min_shard=200),
         Subcheck("index.exhaustive", run_index_enum, enumerate=enumerate_index, exhaustive_note=EXH_NOTE),
-        Subcheck("lazy.ops", run_ops, strategy=ops_case, quick=2400, thorough=60000, min_shard=100),
+        Subcheck("lazy.ops", run_ops, strategy=ops_case, quick=2000, thorough=60000, min_shard=100),
         Subcheck("blocks.stacked", run_blocks, strategy=blocks_case, quick=800, thorough=30000, min_shard=50),
-        Subcheck("active_dims.restrict", run_active_dims, strategy=ad_case, quick=3000, thorough=60000, min_shard=100),
-        Subcheck("batch.getitem", run_getitem, strategy=getitem_case, quick=2400, thorough=60000, min_shard=100),
+        Subcheck("active_dims.restrict", run_active_dims, strategy=ad_case, quick=2400, thorough=60000, min_shard=100),
+        Subcheck("batch.getitem", run_getitem, strategy=getitem_case, quick=2000, thorough=60000, min_shard=100),
         Subcheck("batch.getitem_exhaustive", run_getitem_enum, enumerate=enumerate_getitem,
                  exhaustive_note="batch.getitem_exhaustive: kernel[idx] for every index tuple (all ints of both signs, the slice family, three index "
                                  "tensors; all prefixes) over the batch dimensions of 7 fixed batched kernels (batch shapes (2,), (3,2); with and "
                                  "without active_dims; composed, multitask, derivative)"),
-        Subcheck("batch.expand", run_expand, strategy=expand_case, quick=1600, thorough=40000, min_shard=80),
+        Subcheck("batch.expand", run_expand, strategy=expand_case, quick=1200, thorough=40000, min_shard=80),
     ],
 )
